@@ -137,6 +137,22 @@ fn prefixes<F: Family>(p: &F::Packet, t: &mut Tape, ctx: &mut Ctx) -> CaseResult
                 }
                 ctx.label("eof-as-transport-error:async");
             }
+            0 => {
+                // the transport reports the end once; whatever is read after that fails with NotConnected
+                let run = fam::dec_poll_styled::<F>(pre, &[], 0, Some((usize::MAX, std::io::ErrorKind::NotConnected)), false, 0);
+                match run.result {
+                    Err(e) if F::is_eof(&e) => {}
+                    other => viol!("poll decoder on a transport that reports the end of the stream once after {} of {} bytes (later reads fail with NotConnected) returned {:?} instead of an EOF error; packet {}", k, enc.len(), other.map(|q| fam::render(&q.pkt)), fam::render(p)),
+                }
+                let mut rd = sio::ScriptedReader::new(pre, &[]);
+                rd.after_eof = Some(std::io::ErrorKind::NotConnected);
+                let (r, _) = sio::drive(F::decode_async(&mut rd), pre.len() + 8);
+                match r {
+                    Err(e) if F::is_eof(&e) => {}
+                    other => viol!("async decoder on a transport that reports the end of the stream once after {} of {} bytes returned {:?} instead of an EOF error; packet {}", k, enc.len(), other.map(|q| fam::render(&q)), fam::render(p)),
+                }
+                ctx.label("eof-reported-once");
+            }
             3 if k <= 4096 => {
                 let steps: Vec<Step> = (0..k + 2).map(|j| if j % 3 == 2 { Step::Pending } else { Step::Chunk(1) }).collect();
                 let run = fam::dec_poll_styled::<F>(pre, &steps, u64::MAX, None, false, 1 | (eof_ctr as u8 & 4));
@@ -256,7 +272,7 @@ pub fn run(env: &mut Env) -> RunResult {
         }
     }
     for s in ["c07.cuts.v3", "c07.cuts.v5", "c07.typed.v3", "c07.typed.v5"] {
-        for l in ["eof-as-transport-error:poll", "eof-as-transport-error:async", "eof-after-trickle", "bare-header-of-prefix"] {
+        for l in ["eof-as-transport-error:poll", "eof-as-transport-error:async", "eof-after-trickle", "bare-header-of-prefix", "eof-reported-once"] {
             env.require(s, l);
         }
     }
